@@ -5,8 +5,9 @@ Tr == ndJsonDeserialize(IOEnv.TRACE)
 VARIABLES l
 tvars == <<l, r>>
 Report(v) == IF v = {} THEN TRUE ELSE PrintT(<<"REJECT", l, l, v>>)
-RegsOf(ev) == [k \in Regs |-> AsSet(ev.regs[k + 1])]
-NotCanonical(ev) == \E k \in Regs : ~StrictlyIncreasing(ev.regs[k + 1])
+TRegs(ev) == 0..(Len(ev.regs) - 1)       \* the number of registers is a property of the recorded history
+RegsOf(ev) == [k \in TRegs(ev) |-> AsSet(ev.regs[k + 1])]
+NotCanonical(ev) == \E k \in TRegs(ev) : ~StrictlyIncreasing(ev.regs[k + 1])
 TCrash(ev) == ev.e = "Crash" /\ Report({"crash"}) /\ UNCHANGED r
 TReset(ev) == /\ ev.e = "GF2" /\ ev.op = "Reset"
               /\ Report(IF NotCanonical(ev) THEN {"not-canonical"} ELSE {})
@@ -17,11 +18,11 @@ TOp(ev) ==
          free == MovedFrom(ev)
          got == RegsOf(ev)
          v ==      (IF NotCanonical(ev) THEN {"not-canonical"} ELSE {})
-              \cup (IF \E k \in Regs \ free : got[k] # eff.r[k] THEN
+              \cup (IF \E k \in TRegs(ev) \ free : got[k] # eff.r[k] THEN
                        (IF ev.op \notin {"Dot", "DotSet"} /\ got[ev.d] # eff.r[ev.d] THEN {"wrong-result-vector"} ELSE {})
-                       \cup (IF \E k \in Regs \ (free \cup {ev.d}) : got[k] # eff.r[k] THEN {"operand-changed"} ELSE {})
+                       \cup (IF \E k \in TRegs(ev) \ (free \cup {ev.d}) : got[k] # eff.r[k] THEN {"operand-changed"} ELSE {})
                     ELSE {})
-              \cup (IF \E k \in Regs : ev.sizes[k + 1] # Len(ev.regs[k + 1]) THEN {"size"} ELSE {})
+              \cup (IF \E k \in TRegs(ev) : ev.sizes[k + 1] # Len(ev.regs[k + 1]) THEN {"size"} ELSE {})
               \cup (IF eff.res # -1 /\ ev.res # eff.res THEN {"product"} ELSE {})
      IN Report(v) /\ r' = got          \* resynchronise on the observed state so that the rest of the history is checked
 TInit == l = 1 /\ r = [k \in Regs |-> {}]
